@@ -127,8 +127,8 @@ static const double ROTS[] = {0, M_PI / 2, M_PI, 3 * M_PI / 2, 0.5, M_PI / 4};
 static const int NROT = 6;
 static const double MAGS[] = {1, 2};
 static const Vec2 ORGS[] = {{0, 0}, {3, -2}};
-enum { REP_NONE = 0, REP_RECT, REP_REGULAR, REP_EXPLICIT, REP_EXPLICIT_X, REP_EXPLICIT_Y, NREP };
-inline const char* rep_name(int r) { static const char* n[] = {"none", "rect2x3", "regular_skew", "explicit", "explicit_x", "explicit_y"}; return n[r]; }
+enum { REP_NONE = 0, REP_RECT, REP_REGULAR, REP_EXPLICIT, REP_EXPLICIT_X, REP_EXPLICIT_Y, REP_REGULAR_1COL, REP_REGULAR_1ROW, NREP };
+inline const char* rep_name(int r) { static const char* n[] = {"none", "rect2x3", "regular_skew", "explicit", "explicit_x", "explicit_y", "regular_1col_x4", "regular_3col_x1"}; return n[r]; }
 inline void set_rep(Repetition& rep, int kind) {
     memset(&rep, 0, sizeof rep);
     switch (kind) {
@@ -137,6 +137,8 @@ inline void set_rep(Repetition& rep, int kind) {
         case REP_EXPLICIT: rep.type = RepetitionType::Explicit; rep.offsets.append(Vec2{10, 0}); rep.offsets.append(Vec2{0, 10}); rep.offsets.append(Vec2{8, 8}); break;
         case REP_EXPLICIT_X: rep.type = RepetitionType::ExplicitX; rep.coords.append(-3); rep.coords.append(5); break;
         case REP_EXPLICIT_Y: rep.type = RepetitionType::ExplicitY; rep.coords.append(4); rep.coords.append(-6); break;
+        case REP_REGULAR_1COL: rep.type = RepetitionType::Regular; rep.columns = 1; rep.rows = 4; rep.v1 = Vec2{6, 2}; rep.v2 = Vec2{-1, 5}; break;
+        case REP_REGULAR_1ROW: rep.type = RepetitionType::Regular; rep.columns = 3; rep.rows = 1; rep.v1 = Vec2{-4, 3}; rep.v2 = Vec2{5, 6}; break;
         default: rep.type = RepetitionType::None;
     }
 }
@@ -184,12 +186,12 @@ static const Tag TAG_A = make_tag(1, 0), TAG_B = make_tag(2, 0), TAG_C = make_ta
 
 enum LeafKind {
     L_SQUARE = 0, L_THIN, L_TRIANGLE, L_LABEL1, L_LABEL2, L_ROW_H, L_ROW_V, L_ROW_D, L_ROW_AD, L_EMPTY, L_FLEX, L_ROBUST,
-    L_POLY_RECT, L_POLY_REGULAR, L_POLY_EXPLICIT, L_POLY_EXPLICIT_X, L_POLY_EXPLICIT_Y, L_ZERO_AREA_AD, L_LABEL_EXPLICIT, L_MIXED, L_SAME_POINT, NLEAF
+    L_POLY_RECT, L_POLY_REGULAR, L_POLY_EXPLICIT, L_POLY_EXPLICIT_X, L_POLY_EXPLICIT_Y, L_ZERO_AREA_AD, L_LABEL_EXPLICIT, L_MIXED, L_SAME_POINT, L_POLY_REG_1COL, L_LABEL_REG_1ROW, NLEAF
 };
 inline const char* leaf_name(int k) {
     static const char* n[] = {"unit_square", "thin_rectangle", "triangle", "one_label", "two_labels", "label_row_horizontal", "label_row_vertical", "label_row_diagonal",
                               "label_row_antidiagonal", "empty", "flexpath_2el", "robustpath_2el", "polygon+rect_rep", "polygon+regular_rep", "polygon+explicit_rep",
-                              "polygon+explicit_x_rep", "polygon+explicit_y_rep", "zero_area_polygon_antidiagonal", "label+explicit_rep", "mixed_poly_label_paths_with_reps", "five_labels_same_point"};
+                              "polygon+explicit_x_rep", "polygon+explicit_y_rep", "zero_area_polygon_antidiagonal", "label+explicit_rep", "mixed_poly_label_paths_with_reps", "five_labels_same_point", "polygon+regular_1col_rep", "label+regular_1row_rep"};
     return n[k];
 }
 inline bool leaf_degenerate(int k) { return k == L_LABEL1 || k == L_LABEL2 || (k >= L_ROW_H && k <= L_EMPTY) || k == L_ZERO_AREA_AD || k == L_SAME_POINT; }
@@ -230,6 +232,8 @@ inline void fill_leaf(Cell* c, int kind) {
             c->robustpath_array.append(rp);
         } break;
         case L_SAME_POINT: for (int i = 0; i < 5; i++) c->label_array.append(mklabel("s", Vec2{2, 3}, TAG_C)); break;
+        case L_POLY_REG_1COL: { Polygon* p = mkpoly({{0, 0}, {2, 0}, {1, 1.5}}, TAG_A); set_rep(p->repetition, REP_REGULAR_1COL); c->polygon_array.append(p); } break;
+        case L_LABEL_REG_1ROW: { Label* l = mklabel("g", Vec2{1, 1}, TAG_C); set_rep(l->repetition, REP_REGULAR_1ROW); c->label_array.append(l); } break;
     }
 }
 struct World {
